@@ -51,18 +51,29 @@ Proof.
 Qed.
 
 (* what [shortest] returns: a digit string that was checked to parse back to the same double *)
+Lemma some_pair_inj : forall {A B} (a c : A) (b d : B), Some (a, b) = Some (c, d) -> a = c /\ b = d.
+Proof. intros A B a c b d H. inversion H. now split. Qed.
+
+Lemma finish_spec : forall babs n0 c k digs n,
+  finish babs n0 c k = Some (digs, n) ->
+  exists c', digs = dec_string c' /\ roundtrips babs c' (n - Z.of_nat (length digs)) = true.
+Proof.
+  intros babs n0 c k digs n H. unfold finish in H.
+  set (n1 := n0 + (Z.of_nat (length (dec_string c)) - k)) in *.
+  set (c1 := strip_zeros 20 c) in *.
+  set (d1 := dec_string c1) in *.
+  cbv zeta in H.
+  destruct (roundtrips babs c1 (n1 - Z.of_nat (length d1))) eqn:E; [|discriminate].
+  apply some_pair_inj in H. destruct H as [Hd Hn]. subst digs n. exists c1. split; [reflexivity|exact E].
+Qed.
+
 Lemma shortest_spec : forall babs m e expf digs n,
   shortest babs m e expf = Some (digs, n) ->
   exists c, digs = dec_string c /\ roundtrips babs c (n - Z.of_nat (length digs)) = true.
 Proof.
-  intros babs m e expf digs n H. unfold shortest in H.
-  match type of H with
-  | match ?s with Some _ => _ | None => _ end = _ => destruct s as [[c k]|]; [|discriminate]
-  end.
-  match type of H with
-  | (if ?b then _ else _) = _ => destruct b eqn:E; [|discriminate]
-  end.
-  inversion H; subst. eexists. split; [reflexivity|exact E].
+  intros babs m e expf digs n. unfold shortest.
+  generalize (shortest_search babs m e expf). intros [[[n0 c] k]|] H; [|discriminate].
+  eapply finish_spec. exact H.
 Qed.
 
 Lemma zeros_chars : forall n, Forall digitc (zeros n).
